@@ -15,6 +15,9 @@ HOOK_COMMITS = ["89cac3b", "2698c5e"]
 NOT_APPLICABLE = {f"C{i:02d}": "not yet claimed in this revision: model/suite under construction (see DESIGN.md §9 staging); the technique does apply"
                   for i in range(1, 20)}
 
+ASM_RULE = "asmseq: random op sequences (bursts: header A/B, NNNN, corrupted, with disallowed tails, empty, arbitrary; time steps 0, 1, hold-1..hold+1, hist-1..hist+1, random) with output AND private state (history, pending, previous with deadlines) compared after every call. asmscen: scripted burst histories with assemble at each burst-end tick, no polls inside link-busy windows, a poll at EVERY other tick: (i) C02 grid = 64 presence masks x {absent, corrupted} x header-to-trailer gaps (1 s .. beyond the history window, both edges of hold and history) x pause {0.95,1.0,1.05 s} x header length class (37..252 bytes); (ii) sequences of 1..3 transmissions (header A, header B, trailer) with masks and inter-transmission gaps; (iii) the same message twice with the gap swept across the duplicate window edge; (iv) trailer then a lone foreign burst. Non-trivial = every scenario/op; distinct by request text."
+SIG_RULE = "sigc01: synthesized complete transmissions (f64 continuous-phase AFSK, fractional samples/symbol): header from the SAME grammar (1..31 locations, callsign 3..8), rate from the 8 standard rates and random integers in [8000, 96000], amplitude log-uniform in [300, 30000] (i16 scale, inside samedec's AGC range; see DESIGN.md on the amplitude domain), DC up to 20 % of amplitude, random carrier phase and sub-sample start, baud error in [-1 %, +1 %], pause 1 s +-5 %, noise up to 20 dB SNR, lead-in 0..2 s, voice gap 1..11.5 s, library-default and samedec configurations; for every case the tapped observation streams are replayed on the Lean link model (T1+T2 => T3 link states, byte-tick count, resync ticks) and transport model (T3 => events with timestamps). signear: 16 kinds of audio without a complete SAME transmission. Non-trivial = every case; distinct by request text."
+
 PROPS = {
     "C03": {
         "thm": "SameVerif.Thm.C03",
@@ -96,14 +99,36 @@ PROPS = {
     },
     "C08": {
         "thm": "SameVerif.Thm.C08",
-        "suites": ["asmseq", "asmscen"],
-        "spec_filter": r"^spec\.asm c08 ",
+        "suites": ["asmseq", "asmscen", "sigc01"],
+        "spec_filter": r"^spec\.(asm|sig) c08 ",
         "technique": "Lean 4 invariants over all assembler operation histories (no EndOfMessage is ever left pending; accept never sets a deadline beyond now+hold; a due result is released by the next poll) + differential correspondence of the Assembler incl. private state + per-tick-polled scenario sweeps judged by a delay oracle",
         "level_text": "Proved in Lean over every state and every operation of the assembler model: an EndOfMessage is output by the very call that assembles its establishing burst and is never left pending; every pending result is due no later than its acceptance + MAX_INTERBURST_SYMBOLS (= documented 1.311 s, from the generated constants) and any poll at or after the deadline outputs it and empties the slot, so nothing is held for ever. "
                       "The model is tied to the real Assembler through the hook (outputs and private state after every call) and on thousands of scripted histories with a poll at every idle tick; the oracle checks EOM-at-burst-tick and SOM <= last carrying burst + hold on a quiet channel.",
         "level_note": "Ticks are symbol-synchronizer outputs; the conversion to seconds/samples and the burst-termination latency are sampled at signal level (C01/C14 suites), not proved. One open known finding (F5) is reported as KNOWN-FINDING.",
-        "rule": "asmseq: random op sequences (bursts: header A/B, NNNN, corrupted, with disallowed tails, empty, arbitrary; time steps 0, 1, hold-1..hold+1, hist-1..hist+1, random) with output AND private state (history, pending, previous with deadlines) compared after every call. asmscen: scripted burst histories with assemble at each burst-end tick, no polls inside link-busy windows, a poll at EVERY other tick: (i) C02 grid = 64 presence masks x {absent, corrupted} x header-to-trailer gaps (1 s .. beyond the history window, both edges of hold and history) x pause {0.95,1.0,1.05 s} x header length class (37..252 bytes); (ii) sequences of 1..3 transmissions (header A, header B, trailer) with masks and inter-transmission gaps; (iii) the same message twice with the gap swept across the duplicate window edge; (iv) trailer then a lone foreign burst. Non-trivial = every scenario/op; distinct by request text.",
+        "rule": ASM_RULE + " " + SIG_RULE,
         "exhaustive": False,
         "assumptions": ["the receiver polls the assembler on every symbol tick whose link state is NoCarrier (C13/C09 receiver model)", "tick rate ~ 520.83 Hz (front-end assumption FE4, sampled)"],
+    },
+    "C04": {
+        "thm": "SameVerif.Thm.C04",
+        "suites": ["asmseq", "asmscen", "sigc01", "signear"],
+        "spec_filter": r"^spec\.(asm c04|sig c04|sig nosom) ",
+        "technique": "Lean 4 invariant over all assembler operation histories (every reported message is `combine` of a run of <= 3 consecutive bursts of the log) + theorem that `combine` only reports bytes backed by two agreeing bursts or the bitwise majority of three; correspondence at hook and signal level; evidence oracle on every event trace",
+        "level_text": "Proved in Lean: for ALL burst sets, a decoded header has every byte equal (after MSb masking) in two bursts or the bitwise majority of three, needs two bursts covering every reported position, a single burst or a pair disagreeing on the first byte never decodes, an end-of-message estimate begins NN; and over ALL operation histories with non-decreasing ticks the assembler model only ever reports `combine` of a run of at most three consecutive bursts of its burst log (invariant with init/idle/assemble preservation). The models are tied to the real combiner/Assembler through the hook and, in situ, to the real receiver's tapped streams; the evidence oracle (independent of the models) judges the complete event trace of every scenario and every signal case, including a near-miss library (silence, noise, tones, programme, wrong-baud and preamble-less FSK, preamble only, lone bursts, disagreeing bursts, prefixes with 3+ bit errors).",
+        "level_note": "That non-SAME AUDIO yields fewer than two agreeing bursts is a statement about f32 DSP: sampled (signear), not proved. The forced end-of-message arm is covered by the receiver model (C09).",
+        "rule": ASM_RULE + " " + SIG_RULE,
+        "exhaustive": False,
+        "assumptions": ["symbol tick counts passed to the assembler are non-decreasing (they are a u64 counter)", "FE: non-SAME audio does not produce two bursts that agree (sampled)"],
+    },
+    "C01": {
+        "thm": "SameVerif.Thm.C01",
+        "suites": ["sigc01"],
+        "spec_filter": r"^spec\.sig c01 ",
+        "technique": "Lean 4 theorems about the discrete chain (sync-word ambiguity, warm-up; digital chain theorem under front-end assumptions) + in-situ correspondence of the link and transport models on tapped real runs + sampled signal-level decoding over the property's line-condition domain",
+        "level_text": "PARTIAL by nature: no theorem is about f32 DSP. Proved in Lean: the sync word is four preamble bytes, every misaligned 32-bit window over the preamble is 8 or 24 bit errors away (never within a budget <= 7), warm-up behaviour; C03/C06/C07 supply the combiner, parser and framer theorems the chain rests on. Tie: for every sampled transmission the real receiver's tapped observation streams are replayed on the Lean link model and transport/receiver model, which must reproduce the real link states and the real event trace, timestamps included. Sampled: complete transmissions over rates 8..96 kHz (standard and arbitrary), amplitude, DC, phase, sub-sample start, +-1 % baud, pause 1 s +-5 %, noise to 20 dB SNR, lead-in, voice gap; the oracle demands exactly [StartOfMessage H, EndOfMessage].",
+        "level_note": "The DSP above the observation boundary (DC block, AGC, matched filters, timing loop, power tracker, equalizer arithmetic) is NOT modelled or proved; it enters as the tapped observation stream. Amplitude domain is [300, 30000] (see DESIGN.md): with normalised +-1 audio and wide gain limits the additive AGC converges too slowly, which the crate documents.",
+        "rule": SIG_RULE,
+        "exhaustive": False,
+        "assumptions": ["FE1-FE4 (acquisition, tracking, release, clock) hold for the real DSP on the property's line conditions: measured on every sampled case (counters fe*), never proved"],
     },
 }
